@@ -4,7 +4,7 @@
    generators with every per-type state component; MergeSources at declaration level).
    Only statements here; proofs in Proofs/GenProofs.v, GenBaseProofs.v, GenResetProofs.v. *)
 From Coq Require Import List String Bool Permutation.
-From Shoot Require Import Model.Gen Proofs.GenBaseProofs Proofs.GenProofs Proofs.GenResetProofs Proofs.GenNewProofs Proofs.GenSeqProofs Proofs.GenSigmaProofs Proofs.GenPermProofs Proofs.GenWitnessProofs.
+From Shoot Require Import Model.Gen Proofs.GenBaseProofs Proofs.GenProofs Proofs.GenResetProofs Proofs.GenNewProofs Proofs.GenSeqProofs Proofs.GenSigmaProofs Proofs.GenMapSigmaProofs Proofs.GenPermProofs Proofs.GenMapProofs Proofs.GenWitnessProofs.
 Import ListNotations.
 Local Open Scope string_scope.
 
@@ -63,6 +63,40 @@ Theorem C08_reset_map_sets_needed :
 Proof. exact reset_map_sets_needed. Qed.
 Print Assumptions C08_reset_map_sets_needed.
 
+Theorem C08_reset_getter_setter_needed :
+  getters_of (new_make_gen no_getset c_tl (state_after (new_make_gen no_getset c_tl nstate0 v_tl "A") nstate0) v_tl "B")
+  <> getters_of (new_make_gen no_getset c_tl nstate0 v_tl "B").
+Proof. exact reset_getter_setter_needed. Qed.
+Print Assumptions C08_reset_getter_setter_needed.
+
+Theorem C08_reset_map_methods_needed :
+  toks_of (map_make_gen no_mmeth id_oracle c_map "dest" v_dest
+             (state_after (map_make_gen no_mmeth id_oracle c_map "dest" v_dest mstate0 v_src "Order2") mstate0) v_src "Order")
+  <> toks_of (map_make_gen no_mmeth id_oracle c_map "dest" v_dest mstate0 v_src "Order").
+Proof. exact reset_map_methods_needed. Qed.
+Print Assumptions C08_reset_map_methods_needed.
+
+Theorem C08_reset_map_tags_needed :
+  toks_of (map_make_gen no_mtags id_oracle c_map_tg "dest" v_dest_tg
+             (state_after (map_make_gen no_mtags id_oracle c_map_tg "dest" v_dest_tg mstate0 v_src_tg "Tagged") mstate0) v_src_tg "Plain")
+  <> toks_of (map_make_gen no_mtags id_oracle c_map_tg "dest" v_dest_tg mstate0 v_src_tg "Plain").
+Proof. exact reset_map_tags_needed. Qed.
+Print Assumptions C08_reset_map_tags_needed.
+
+Theorem C08_reset_map_funcs_needed :
+  toks_of (map_make_gen no_mfuncs id_oracle c_map_fn "dest" v_dest_fn
+             (state_after (map_make_gen no_mfuncs id_oracle c_map_fn "dest" v_dest_fn mstate0 v_src_fn "WithM") mstate0) v_src_fn "NoM")
+  <> toks_of (map_make_gen no_mfuncs id_oracle c_map_fn "dest" v_dest_fn mstate0 v_src_fn "NoM").
+Proof. exact reset_map_funcs_needed. Qed.
+Print Assumptions C08_reset_map_funcs_needed.
+
+Theorem C08_reset_map_maps_needed :
+  toks_of (map_make_gen no_mmaps id_oracle c_map_mm "dest" v_dest_mm
+             (state_after (map_make_gen no_mmaps id_oracle c_map_mm "dest" v_dest_mm mstate0 v_src_mm "First") mstate0) v_src_mm "Second")
+  <> toks_of (map_make_gen no_mmaps id_oracle c_map_mm "dest" v_dest_mm mstate0 v_src_mm "Second").
+Proof. exact reset_map_maps_needed. Qed.
+Print Assumptions C08_reset_map_maps_needed.
+
 (* ---- the Generate loop is a function of the views only: started in any state, for any type list (unbounded), it
    produces what the loop produces in which every type is analysed by a generator in state st0 *)
 Theorem C08_loop_state_free :
@@ -85,8 +119,10 @@ Theorem C08_view_split : forall hw disk ov,
 Proof. exact view_split. Qed.
 Print Assumptions C08_view_split.
 
-(* ---- MergeSources: header of the first, declarations in order, import union; free-floating comments only where a
-   source ends a declaration with a comment and continues with a declaration without doc comment *)
+(* ---- the MODEL of MergeSources (Gen.merge; the real one -- go/parser, comment re-attachment by byte distance, goimports -- is
+   tied to it through the astsig comparison only): header of the first, declarations in order, import union; free-floating
+   comments only where a source ends a declaration with a comment and continues with a declaration without doc comment.
+   `d_doc` is a flag: theorems speak about the presence of doc comments, their text is compared in the correspondence. *)
 Theorem C08_merge : forall f fs m, merge (f :: fs) = Some m ->
   a_cmd m = a_cmd f /\ a_decls m = flat_map a_decls (f :: fs) /\
   (forall x, In x (a_imports m) <-> exists g, In g (f :: fs) /\ In x (a_imports g)) /\
@@ -203,6 +239,42 @@ Theorem C08_single_run_is_step :
 Proof. exact @single_run_any. Qed.
 Print Assumptions C08_single_run_is_step.
 
+(* ... for every generator that never feeds a source back (stale = false: map always, new without -getset, enum, rest), with NO
+   guard -- embedding included: the all-in-one file is the concatenation of what -type=T writes for the same types, each run
+   in the directory as the all-in-one run found it (same_dir_files) *)
+Theorem C08_map_all_in_one_is_concatenation : forall ro c (cT : string -> cmd) dp dv hw disk fmap o st st' types sm,
+  (forall T, c_toonly (cT T) = c_toonly c /\ c_fromonly (cT T) = c_fromonly c) ->
+  separate c = false ->
+  confirm_types (list_types_of CMap) c o (mk_view hw disk []) = Some (types, fmap) ->
+  generate (map_make ro c dp dv) map_render (list_types_of CMap) c o hw disk st = Some sm ->
+  let fs := same_dir_files (fun c0 => map_make ro c0 dp dv) map_render cT hw disk st' types in
+  match sm with
+  | [] => fs = []
+  | [(n, m)] =>
+      a_decls m = flat_map a_decls fs /\ a_imports m = dedup (flat_map a_imports fs) /\
+      a_stray m = flat_map (fun f => strays (a_decls f)) fs /\ n = nm c hw fmap ""
+  | _ => False
+  end.
+Proof. exact map_aio_is_concatenation. Qed.
+Print Assumptions C08_map_all_in_one_is_concatenation.
+
+Theorem C08_new_noget_all_in_one_is_concatenation : forall c (cT : string -> cmd) hw disk fmap o st st' types sm,
+  c_getset c = false ->
+  (forall T, c_getset (cT T) = c_getset c /\ c_json (cT T) = c_json c /\ c_opt (cT T) = c_opt c) ->
+  separate c = false ->
+  confirm_types (list_types_of CNew) c o (mk_view hw disk []) = Some (types, fmap) ->
+  generate (new_make c) nrender (list_types_of CNew) c o hw disk st = Some sm ->
+  let fs := same_dir_files new_make nrender cT hw disk st' types in
+  match sm with
+  | [] => fs = []
+  | [(n, m)] =>
+      a_decls m = flat_map a_decls fs /\ a_imports m = dedup (flat_map a_imports fs) /\
+      a_stray m = flat_map (fun f => strays (a_decls f)) fs /\ n = nm c hw fmap ""
+  | _ => False
+  end.
+Proof. exact new_noget_aio_is_concatenation. Qed.
+Print Assumptions C08_new_noget_all_in_one_is_concatenation.
+
 (* ---- second sentence of C08: the order of the names in -type=A,B changes no file content.  The header quotes the
    command line, so it differs by construction: equal names, imports, declarations and free comments (nb).  For every
    generator that does not read generated files (enum, rest; new when no struct embeds a struct), any oracle, any
@@ -264,6 +336,52 @@ Theorem C08_new_permutation : forall c c' hw o disk st st',
   end.
 Proof. exact new_permutation. Qed.
 Print Assumptions C08_new_permutation.
+
+(* ... and without any guard for the generators that never feed a source back: map, and new without -getset with embedding *)
+Theorem C08_permutation_nostale :
+  forall (St Data : Type) (mk : cmd -> St -> pview -> string -> mres Data St) (render : St -> Data -> afile),
+  (forall c st1 st2 v T, same_out render (mk c st1 v T) (mk c st2 v T)) ->
+  forall hw disk lt c c' o st st',
+    (forall st v T d s st', mk c st v T = MOk d s st' -> s = false) ->
+    (forall st v T d s st', mk c' st v T = MOk d s st' -> s = false) ->
+    specified c = true -> specified c' = true ->
+    Permutation (c_types c) (c_types c') -> c_file c = c_file c' -> c_sub c = c_sub c' ->
+    c_star c = false -> c_star c' = false ->
+    (forall T st0 v, same_body render render (mk c st0 v T) (mk c' st0 v T)) ->
+    match generate (mk c) render lt c o hw disk st, generate (mk c') render lt c' o hw disk st' with
+    | Some sm, Some sm' => map nb (listing sm) = map nb (listing sm')
+    | None, None => True
+    | _, _ => False
+    end.
+Proof. exact @permutation_nostale. Qed.
+Print Assumptions C08_permutation_nostale.
+
+Theorem C08_map_permutation : forall ro c c' dp dv hw disk o st st',
+  specified c = true -> specified c' = true ->
+  Permutation (c_types c) (c_types c') -> c_file c = c_file c' -> c_sub c = c_sub c' ->
+  c_star c = false -> c_star c' = false -> c_toonly c = c_toonly c' -> c_fromonly c = c_fromonly c' ->
+  match generate (map_make ro c dp dv) map_render (list_types_of CMap) c o hw disk st,
+        generate (map_make ro c' dp dv) map_render (list_types_of CMap) c' o hw disk st' with
+  | Some sm, Some sm' => map nb (listing sm) = map nb (listing sm')
+  | None, None => True
+  | _, _ => False
+  end.
+Proof. exact map_permutation. Qed.
+Print Assumptions C08_map_permutation.
+
+Theorem C08_new_noget_permutation : forall c c' hw disk o st st',
+  c_getset c = false -> c_getset c' = false ->
+  specified c = true -> specified c' = true ->
+  Permutation (c_types c) (c_types c') -> c_file c = c_file c' -> c_sub c = c_sub c' ->
+  c_star c = false -> c_star c' = false -> c_json c = c_json c' -> c_opt c = c_opt c' ->
+  match generate (new_make c) nrender (list_types_of CNew) c o hw disk st,
+        generate (new_make c') nrender (list_types_of CNew) c' o hw disk st' with
+  | Some sm, Some sm' => map nb (listing sm) = map nb (listing sm')
+  | None, None => True
+  | _, _ => False
+  end.
+Proof. exact new_noget_permutation. Qed.
+Print Assumptions C08_new_noget_permutation.
 
 (* the generator objects may start in any state: the whole run is the same *)
 Theorem C08_run_state_free_new : forall c o hw disk st,
